@@ -25,7 +25,7 @@ import (
 func init() {
 	Registry["C08"] = &Check{
 		Scenarios: c08Scenarios,
-		Rule: "Registrations with a nil handler (refused with a panic the application recovers) before traffic and a valid one after; another ServeMux set up by a goroutine while a handler of this one is blocked: dispatch goes on (preemption bound 2). 1101 connections on one ServeMux with the handlers of 1100 blocked for ever, and with 1100 closed by their peers before the last one is made (one schedule each). The peer hangs up right behind a burst of three requests whose first handler requested CloseNotify (one segment, one segment per request, the first request alone and the other two in one segment). Run-time registrations at every instant of the dispatch of three messages (by name, by index, catch-all; the RWMutex shim gives a waiting writer precedence over new readers, as sync.RWMutex does). A handler of connection A blocked inside Parser.Load of a private dictionary (package dict is part of the instrumented build) while connection B receives. Two connections send requests no handler matches while nobody reads ErrorReports, then a handled one each. Two relay scenarios with a multistream (SCTP) connection B, forwarded to with Message.WriteTo and with the raw Conn.Write adaptor. Two relay scenarios: a handler of connection A blocks inside a Write to connection B (whose peer has stopped reading) while B keeps receiving - under a Server with and without ReadTimeout / WriteTimeout. In the blocked-handler mode (two of the six arrival patterns) an application goroutine polls ServeMux.ErrorReports() at every instant. Server.Serve on a scripted listener with two connections (both accepted, or one accepted and one attached with diam.NewConn); three requests per connection (re-auth, device-watchdog, capabilities-exchange, in that order) delivered as {one segment, one segment per message, split at the header/body border, first message in 10-byte pieces, first message one byte at a time}; instrumented handlers record enter/exit around a scheduling point and answer; variants: plain, and the first handler on connection A blocked for ever; in one arrival pattern the first handler of connection B requests CloseNotify (so the rest of B's messages pass through the reader switch); one arrival pattern runs on a zero Server{} (DefaultServeMux, default dictionary); every schedule up to preemption bound 3 (thorough 6). The environment is eager (all fragments queued before the server starts; a Read never crosses a fragment boundary), because the arrival instant of a fragment is unobservable to a per-connection single-threaded reader; what is explored is every interleaving of the accept loop, the per-connection readers and the handlers.",
+		Rule: "two application goroutines registering names, an index, the catch-all and one common key on one ServeMux at the same time, at every relative instant (a registration that has returned is in force when traffic arrives afterwards); Registrations with a nil handler (refused with a panic the application recovers) before traffic and a valid one after; another ServeMux set up by a goroutine while a handler of this one is blocked: dispatch goes on (preemption bound 2). 1101 connections on one ServeMux with the handlers of 1100 blocked for ever, and with 1100 closed by their peers before the last one is made (one schedule each). The peer hangs up right behind a burst of three requests whose first handler requested CloseNotify (one segment, one segment per request, the first request alone and the other two in one segment). Run-time registrations at every instant of the dispatch of three messages (by name, by index, catch-all; the RWMutex shim gives a waiting writer precedence over new readers, as sync.RWMutex does). A handler of connection A blocked inside Parser.Load of a private dictionary (package dict is part of the instrumented build) while connection B receives. Two connections send requests no handler matches while nobody reads ErrorReports, then a handled one each. Two relay scenarios with a multistream (SCTP) connection B, forwarded to with Message.WriteTo and with the raw Conn.Write adaptor. Two relay scenarios: a handler of connection A blocks inside a Write to connection B (whose peer has stopped reading) while B keeps receiving - under a Server with and without ReadTimeout / WriteTimeout. In the blocked-handler mode (two of the six arrival patterns) an application goroutine polls ServeMux.ErrorReports() at every instant. Server.Serve on a scripted listener with two connections (both accepted, or one accepted and one attached with diam.NewConn); three requests per connection (re-auth, device-watchdog, capabilities-exchange, in that order) delivered as {one segment, one segment per message, split at the header/body border, first message in 10-byte pieces, first message one byte at a time}; instrumented handlers record enter/exit around a scheduling point and answer; variants: plain, and the first handler on connection A blocked for ever; in one arrival pattern the first handler of connection B requests CloseNotify (so the rest of B's messages pass through the reader switch); one arrival pattern runs on a zero Server{} (DefaultServeMux, default dictionary); every schedule up to preemption bound 3 (thorough 6). The environment is eager (all fragments queued before the server starts; a Read never crosses a fragment boundary), because the arrival instant of a fragment is unobservable to a per-connection single-threaded reader; what is explored is every interleaving of the accept loop, the per-connection readers and the handlers.",
 		Assume: []string{"data-race freedom between visible operations (audited separately with -race)"},
 		QuickBudget: 120, ThoroughBudget: 2400,
 	}
@@ -451,6 +451,7 @@ func c08Scenarios(tier string) []*Scenario {
 	out = append(out, &Scenario{Name: "many-connections", Seq: c08ManyConnections})
 	out = append(out, c08HandlerLoadsDictionary(bound))
 	out = append(out, c08RegisterWhileDispatching(bound))
+	out = append(out, c08ConcurrentRegistrars(bound))
 	return out
 }
 
@@ -1721,4 +1722,77 @@ func c08RegisterWhileDispatching(bound int) *Scenario {
 	}
 	return &Scenario{Name: "dispatch/registration-at-run-time-while-dispatching", Body: body, Check: check, Bound: bound, Horizon: 10 * time.Second,
 		Outcome: func(s *vs.Sched) string { return fmt.Sprint(c08rw.handled, c08rw.registered) }}
+}
+
+// c08ConcurrentRegistrars: TWO application goroutines register handlers on one ServeMux at the same
+// time (names, an index, the catch-all, and one key both of them register), at every relative
+// instant; when both have returned, a connection delivers one message per key. A registration that
+// has returned is in force: every message reaches the handler registered for it, exactly once.
+var c08cr struct {
+	handled []string
+	done    int
+}
+
+func c08ConcurrentRegistrars(bound int) *Scenario {
+	body := func() {
+		c08cr.handled, c08cr.done = nil, 0
+		a := vnet.NewConn("A")
+		a.Pieces = 1
+		lis := vnet.NewListener()
+		mux := diam.NewServeMux()
+		h := func(tag string) diam.HandlerFunc {
+			return func(c diam.Conn, m *diam.Message) { c08cr.handled = append(c08cr.handled, tag) }
+		}
+		mux.HandleIdx(diam.CommandIndex{AppID: 0, Code: 258, Request: true}, h("setup-index-RAR"))
+		srv := &diam.Server{Handler: mux, Dict: dict.Default}
+		base := []refcodec.Node{ident(264, "c"), ident(296, "r")}
+		var all []byte
+		for i, code := range []uint32{280, 258, 275, 271, 274, 272} {
+			app := uint32(0)
+			if code == 271 {
+				app = 3
+			}
+			if code == 272 {
+				app = 4
+			}
+			all = append(all, refcodec.EncodeMessage(refcodec.Header{Version: 1, Flags: 0x80, Code: code, App: app, HbH: 1, E2E: uint32(i + 1)}, base)...)
+		}
+		finish := func() {
+			c08cr.done++
+			if c08cr.done == 2 {
+				a.Deliver(all)
+				lis.Offer(vnet.AcceptItem{Conn: a})
+				vs.GoNamed("serve", false, func() { srv.Serve(lis) })
+			}
+		}
+		vs.GoNamed("app-register-1", true, func() {
+			mux.HandleFunc("STR", h("g1-name-STR"))
+			vs.Yield("env")
+			mux.HandleIdx(diam.CommandIndex{AppID: 3, Code: 271, Request: true}, h("g1-index-ACR"))
+			vs.Yield("env")
+			mux.HandleFunc("ASR", h("g1-name-ASR")) // the key both register: either may win, one of them must
+			finish()
+		})
+		vs.GoNamed("app-register-2", true, func() {
+			mux.HandleFunc("DWR", h("g2-name-DWR"))
+			vs.Yield("env")
+			mux.HandleFunc("ALL", h("g2-all"))
+			vs.Yield("env")
+			mux.Handle("ASR", h("g2-name-ASR"))
+			finish()
+		})
+	}
+	check := func(s *vs.Sched) string {
+		var v []string
+		got := fmt.Sprint(c08cr.handled)
+		if got != "[g2-name-DWR setup-index-RAR g1-name-STR g1-index-ACR g1-name-ASR g2-all]" && got != "[g2-name-DWR setup-index-RAR g1-name-STR g1-index-ACR g2-name-ASR g2-all]" {
+			v = append(v, fmt.Sprintf("two goroutines registered handlers at the same time and both returned; then DWR, RAR, STR, ACR, ASR, CCR arrived: handlers that ran: %v, expected [g2-name-DWR setup-index-RAR g1-name-STR g1-index-ACR g1-name-ASR|g2-name-ASR g2-all] (registrars returned: %d of 2; library goroutines blocked: %v)", c08cr.handled, c08cr.done, s.BlockedLib()))
+		}
+		for _, p := range s.Panics() {
+			v = append(v, "panic: "+p)
+		}
+		return strings.Join(v, " | ")
+	}
+	return &Scenario{Name: "dispatch/two-goroutines-register-at-the-same-time", Body: body, Check: check, Bound: bound, Horizon: 10 * time.Second,
+		Outcome: func(s *vs.Sched) string { return fmt.Sprint(c08cr.handled, c08cr.done) }}
 }
